@@ -3,9 +3,11 @@
 (* Models of property C16.  One module, four modes (constant Mode):        *)
 (*   "grid"    the loop nest of gaussian_blurring as a state machine, one  *)
 (*             action Visit per grid point, for every grid shape in scope  *)
-(*   "blur"    the same machine on concrete trajectories (every frame with *)
-(*             its own cell and bounds); at the end of the enumeration the *)
-(*             slot values of every frame are stated as Real terms         *)
+(*   "blur"    the same machine inside the frame loop of concrete          *)
+(*             trajectories: every frame has its own bounds and its own    *)
+(*             cell, two INDEPENDENT attributes (action NextFrame starts   *)
+(*             the loop nest again with the next frame's bounds); at the   *)
+(*             end the slot values of every frame are stated as Real terms *)
 (*   "spatial" spatial_average: one action per frame, cursor on the file   *)
 (*   "window"  time_average: one action per window                         *)
 (* Variables: cfg (the input chosen in Init, constant afterwards), pc (loop*)
@@ -32,6 +34,7 @@ GridShapes ==
 
 Visit ==
   /\ pc # << >>
+  /\ Mode = "grid"
   /\ acc' = [slots |-> VisitSlots(cfg.ng, acc.slots, pc), nvis |-> acc.nvis + 1]
   /\ pc'  = NextPoint(cfg.ng, pc)
   /\ UNCHANGED cfg
@@ -69,11 +72,29 @@ Cell3(a, b, c, xy, xz, yz, xlo, ylo, zlo) ==
                  <<zlo, zlo + c>> >>,
    lo |-> <<xlo, ylo, zlo>>]
 
+\* a frame whose bounds are not tied to its cell (a gsd frame: hmatrix = the box, boxbounds = what the reader found):
+\* the cell of c with the given bounds; particles are placed from the lower corner of the bounds
+Ext(c, bounds) == [H |-> c.H, bounds |-> bounds, lo |-> [k \in 1..Len(bounds) |-> bounds[k][1]]]
+
+\* Frames = (cell, bounds).  1-7: boxes with their own origin; 8-17 vary ONE attribute of an earlier frame:
+\*   8 / 13   the cell of 1 / 5, origin shifted                 9 / 14   other lengths, the bounds of 1 / 5
+\*  10 / 15   other lengths, the bounds of 1 / 5 shifted        11 / 16  the lengths of 3 / 7, other tilt, the same bounds
+\*  12 / 17   the lengths of 3 / 7, other tilt, bounds shifted at the same lengths
 BlurCells ==
   << Cell2(4, 0, 4, 0, 0), Cell2(8, 0, 4, 0 - 2, 1), Cell2(4, 1, 4, 0, 0), Cell2(6, 0 - 2, 4, 0 - 1, 0),
-     Cell3(4, 4, 4, 0, 0, 0, 0, 0, 0), Cell3(4, 6, 8, 0, 0, 0, 0 - 2, 0, 1), Cell3(4, 4, 4, 1, 0 - 1, 2, 0, 0, 0) >>
+     Cell3(4, 4, 4, 0, 0, 0, 0, 0, 0), Cell3(4, 6, 8, 0, 0, 0, 0 - 2, 0, 1), Cell3(4, 4, 4, 1, 0 - 1, 2, 0, 0, 0),
+     Cell2(4, 0, 4, 2, 0 - 3),
+     Ext(Cell2(8, 0, 4, 0, 0), Cell2(4, 0, 4, 0, 0).bounds),
+     Ext(Cell2(8, 0, 4, 0, 0), BoundsShift(Cell2(4, 0, 4, 0, 0).bounds, <<2, 0 - 3>>)),
+     Cell2(4, 0 - 1, 4, 1, 0),
+     Cell2(4, 0 - 1, 4, 3, 0 - 2),
+     Cell3(4, 4, 4, 0, 0, 0, 1, 0 - 2, 3),
+     Ext(Cell3(4, 6, 8, 0, 0, 0, 0, 0, 0), Cell3(4, 4, 4, 0, 0, 0, 0, 0, 0).bounds),
+     Ext(Cell3(4, 6, 8, 0, 0, 0, 0, 0, 0), BoundsShift(Cell3(4, 4, 4, 0, 0, 0, 0, 0, 0).bounds, <<1, 0 - 2, 3>>)),
+     Cell3(4, 4, 4, 0 - 1, 1, 2, 0, 0, 0),
+     Cell3(4, 4, 4, 0 - 1, 1, 2, 2, 0 - 1, 0 - 3) >>
 
-\* particle positions relative to the cell origin, per frame
+\* particle positions relative to the lower corner, per frame
 PosSets ==
   << << << <<0, 0>>, <<1, 2>>, <<3, 1>> >>, << <<2, 2>>, <<0, 3>>, <<3, 3>> >> >>,
      << << <<1, 1>>, <<2, 3>>, <<0 - 1, 4>>, <<5, 2>> >> >>,
@@ -97,43 +118,83 @@ BlurGrids ==
   ELSE [1..2 -> 1..6] \cup [1..3 -> 2..4]
        \cup {<<5, 2, 3>>, <<2, 5, 2>>, <<3, 2, 5>>, <<1, 3, 2>>, <<3, 1, 4>>}
 
-\* cells of the frames of a trajectory: one cell index per frame.  Multi-frame sequences change box
-\* lengths, origin and tilt from frame to frame (NPT / deformed box): every frame has its own bounds
-\* and its own cell; <<2, 2>> is the constant box.
+\* the frames of a trajectory: one frame index per frame.  The two-frame sequences realise every combination of
+\* (same cell | other lengths | other tilt) x (same bounds | origin shifted at the same lengths) in 2-D and in 3-D
+\* (ASSUME below), and the boxes whose lengths, origin and tilt all change (NPT / deformed box: bounds resized).
 BlurCellSeqs ==
-  << <<1>>, <<2>>, <<3>>, <<4>>, <<1, 2>>, <<3, 4>>, <<4, 1>>, <<2, 2>>,
-     <<5, 6>>, <<7, 5>>, <<6, 7>> >>
+  << <<1>>, <<2>>, <<3>>, <<4>>,
+     <<2, 2>>, <<1, 8>>, <<1, 9>>, <<1, 10>>, <<3, 11>>, <<3, 12>>, <<1, 2>>, <<3, 4>>,
+     <<6, 6>>, <<5, 13>>, <<5, 14>>, <<5, 15>>, <<7, 16>>, <<7, 17>>, <<5, 6>>, <<6, 7>> >>
+
+FrameTransitions(d) ==
+  {<<CellChange(BlurCells[q[1]].H, BlurCells[q[2]].H), BoundsChange(BlurCells[q[1]].bounds, BlurCells[q[2]].bounds)>> :
+     q \in {BlurCellSeqs[i] : i \in {i \in 1..Len(BlurCellSeqs) : Len(BlurCellSeqs[i]) = 2 /\ Len(BlurCells[BlurCellSeqs[i][1]].H) = d}}}
+ASSUME ScopeCoversFrameTransitions ==
+  \A d \in {2, 3} :
+     /\ ({"same", "lengths", "tilt"} \X {"same", "shifted"}) \subseteq FrameTransitions(d)
+     /\ <<"lengths", "resized">> \in FrameTransitions(d) /\ <<"both", "resized">> \in FrameTransitions(d)
+
+\* quick tier: a two-frame trajectory is combined with part of the (mask, (sigma, cut)) product only - every mask and
+\* every (sigma, cut) with every sequence, rotating with the sequence and the grid
+QuickPick(cs, m, sc, ngv) ==
+  LET mk == m[1] + m[Len(m)] IN         \* 2, 1, 0 for the three quick masks
+  IF Len(BlurCellSeqs[cs]) = 1 THEN TRUE
+  ELSE IF Len(m) = 2 THEN (mk + sc + cs + ngv[1]) % 3 # 0
+  ELSE (mk + sc + cs + ngv[1]) % 3 = 0
 
 InitBlur ==
   \E ngv \in BlurGrids, cs \in 1..Len(BlurCellSeqs), pi \in 1..Len(PosSets), sc \in 1..Len(SigCuts) :
     LET d   == Len(ngv)
         seq == BlurCellSeqs[cs]
+        F   == Len(seq)
     IN
     /\ Len(BlurCells[seq[1]].H) = d
     /\ Len(PosSets[pi][1][1]) = d
-    /\ Len(PosSets[pi]) = Len(seq)
+    /\ Len(PosSets[pi]) = F
     /\ \E m \in BlurMasks(d) :
+         /\ (Quick => QuickPick(cs, m, sc, ngv))
          /\ (7 * SumSeq(ngv) + ngv[1] + 3 * cs + SumSeq(m) + pi + 5 * sc) % NSHARDS = SHARD
          /\ cfg = [ng |-> ngv,
-                   Hs |-> [f \in 1..Len(seq) |-> BlurCells[seq[f]].H],
-                   bs |-> [f \in 1..Len(seq) |-> BlurCells[seq[f]].bounds], ppp |-> m,
-                   pos0 |-> [f \in 1..Len(PosSets[pi]) |->
+                   Hs |-> [f \in 1..F |-> BlurCells[seq[f]].H],
+                   bs |-> [f \in 1..F |-> BlurCells[seq[f]].bounds], ppp |-> m,
+                   pos0 |-> [f \in 1..F |->
                               [j \in 1..Len(PosSets[pi][f]) |-> VAdd(PosSets[pi][f][j], BlurCells[seq[f]].lo)]],
                    \* every other configuration: unwrapped coordinates (particle j of frame f displaced by
                    \* -2..3 whole cell vectors of the frame's cell along each periodic axis: the same system)
-                   pos |-> [f \in 1..Len(PosSets[pi]) |->
+                   pos |-> [f \in 1..F |->
                               [j \in 1..Len(PosSets[pi][f]) |->
                                  LET p0 == VAdd(PosSets[pi][f][j], BlurCells[seq[f]].lo) IN
                                  IF (cs + pi + sc) % 2 = 0 THEN p0
                                  ELSE VAdd(p0, VecMat([k \in 1..d |-> m[k] * (((j + 2 * k + f) % 6) - 2)], BlurCells[seq[f]].H))]],
                    sig |-> SigCuts[sc][1], cut |-> SigCuts[sc][2]]
          /\ pc = FirstPoint(ngv)
-         /\ acc = [slots |-> EmptySlots(ngv), nvis |-> 0]
+         /\ acc = [slots |-> EmptySlots(ngv), nvis |-> 0, f |-> 1,
+                   grids |-> [f \in 1..F |-> [s \in 0..(NPoints(ngv) - 1) |-> << >>]]]
+
+\* one step of the loop nest of frame acc.f: the grid point pc goes into its flat slot, at the position the bounds of
+\* THAT frame give it
+VisitB ==
+  /\ Mode = "blur"
+  /\ pc # << >>
+  /\ acc' = [acc EXCEPT !.slots = VisitSlots(cfg.ng, @, pc), !.nvis = @ + 1,
+                        !.grids[acc.f][Flat(cfg.ng, pc)] = ScaledPoint(cfg.ng, cfg.bs[acc.f], pc)]
+  /\ pc'  = NextPoint(cfg.ng, pc)
+  /\ UNCHANGED cfg
+\* the frame loop: the loop nest of frame acc.f has finished, the next frame starts with an empty grid
+NextFrame ==
+  /\ Mode = "blur"
+  /\ pc = << >> /\ acc.f < Len(cfg.bs)
+  /\ acc' = [acc EXCEPT !.slots = EmptySlots(cfg.ng), !.nvis = 0, !.f = @ + 1]
+  /\ pc'  = FirstPoint(cfg.ng)
+  /\ UNCHANGED cfg
+BlurDone == pc = << >> /\ acc.f = Len(cfg.bs)
+FinishedFrames == {g \in 1..Len(cfg.bs) : g < acc.f \/ (g = acc.f /\ pc = << >>)}
+AtStart == acc.nvis = 0 /\ acc.f = 1
 
 \* spec sanity: the product form CgImages is Cell!MinImage (checked on the first
 \* grid point of every configuration, against every particle of every frame, in the frame's cell)
 InvImagesAreMinImage ==
-  acc.nvis = 0 =>
+  AtStart =>
     \A f \in 1..Len(cfg.pos) : \A j \in 1..Len(cfg.pos[f]) :
       LET M  == GridScale(cfg.ng)
           Hs == [i \in 1..Len(cfg.Hs[f]) |-> VScale(M, cfg.Hs[f][i])]
@@ -141,19 +202,45 @@ InvImagesAreMinImage ==
       IN  CgImages(Hs, v, cfg.ppp) = MinImage(Hs, v, cfg.ppp)
 \* unwrapped coordinates: whole cell vectors along periodic axes change no grid-particle distance
 InvBlurUnwrapInvariant ==
-  acc.nvis = 0 =>
+  AtStart =>
     \A f \in 1..Len(cfg.pos) : \A j \in 1..Len(cfg.pos[f]) :
       GridDist2Set(cfg.ng, cfg.bs[f], cfg.Hs[f], cfg.ppp, pc, cfg.pos[f][j])
         = GridDist2Set(cfg.ng, cfg.bs[f], cfg.Hs[f], cfg.ppp, pc, cfg.pos0[f][j])
+\* the distances depend on the bounds only through the grid positions: moving the bounds and the particles of a frame
+\* together changes nothing (so the values of a frame are those of its own bounds, cell and particles and of nothing else)
+InvBlurTranslationInvariant ==
+  AtStart =>
+    \A f \in 1..Len(cfg.pos) : \A j \in 1..Len(cfg.pos[f]) :
+      LET t == [k \in 1..Len(cfg.ng) |-> 3 * k - 5 * f] IN
+      GridDist2Set(cfg.ng, cfg.bs[f], cfg.Hs[f], cfg.ppp, pc, cfg.pos[f][j])
+        = GridDist2Set(cfg.ng, BoundsShift(cfg.bs[f], t), cfg.Hs[f], cfg.ppp, pc, VAdd(cfg.pos[f][j], t))
 \* every frame's grid spans that frame's bounds: first point = lower corner, last point = upper corner
-\* (lower corner on an axis with a single point), and the bounds are those of the frame's cell
+\* (lower corner on an axis with a single point)
 InvGridSpansFrameBounds ==
-  acc.nvis = 0 =>
+  AtStart =>
     \A f \in 1..Len(cfg.pos) :
       LET d == Len(cfg.ng)  last == [k \in 1..d |-> cfg.ng[k] - 1] IN
       /\ PointPos(cfg.ng, cfg.bs[f], FirstPoint(cfg.ng)) = [k \in 1..d |-> <<cfg.bs[f][k][1], 1>>]
       /\ PointPos(cfg.ng, cfg.bs[f], last) = [k \in 1..d |-> <<(IF cfg.ng[k] = 1 THEN cfg.bs[f][k][1] ELSE cfg.bs[f][k][2]), 1>>]
-      /\ \A k \in 1..d : cfg.bs[f][k][2] - cfg.bs[f][k][1] >= cfg.Hs[f][k][k]
+      /\ \A k \in 1..d : cfg.bs[f][k][2] > cfg.bs[f][k][1]
+\* what the loop nest of a frame has filed is the grid of that frame's bounds, whatever its cell and whatever came before
+InvFrameGridFromItsBounds ==
+  \A g \in FinishedFrames : acc.grids[g] = FrameGrid(cfg.ng, cfg.bs[g])
+\* two frames have the same grid iff they have the same bounds - not iff they have the same cell
+InvGridIsFunctionOfFrameBounds ==
+  \A g, h \in FinishedFrames :
+    (acc.grids[g] = acc.grids[h]) <=> SameGridBounds(cfg.ng, cfg.bs[g], cfg.bs[h])
+\* independent formulation of "equally spaced points spanning the bounds": on every axis the coordinates that occur are
+\* n values from the lower to the upper bound with constant spacing
+InvEquallySpaced ==
+  pc = << >> =>
+    LET g == acc.f  M == GridScale(cfg.ng) IN
+    \A k \in 1..Len(cfg.ng) :
+      LET xs == SortedSeq({acc.grids[g][s][k] : s \in DOMAIN acc.grids[g]}) IN
+      /\ Len(xs) = cfg.ng[k]
+      /\ xs[1] = M * cfg.bs[g][k][1]
+      /\ (cfg.ng[k] > 1 => xs[Len(xs)] = M * cfg.bs[g][k][2])
+      /\ \A i \in 1..(Len(xs) - 1) : (xs[i + 1] - xs[i]) * (cfg.ng[k] - 1) = M * (cfg.bs[g][k][2] - cfg.bs[g][k][1])
 
 IsPow2(n) == n \in {1, 2, 4, 8, 16}
 BlurSlot(pt) ==
@@ -171,6 +258,8 @@ BlurCase ==
   [m |-> "blur", ng |-> cfg.ng, Hs |-> cfg.Hs, bs |-> cfg.bs, ppp |-> cfg.ppp, pos |-> cfg.pos,
    sig |-> cfg.sig, cut |-> cfg.cut,
    exactgrid |-> \A k \in 1..Len(cfg.ng) : IsPow2(Max2(cfg.ng[k] - 1, 1)),
+   \* the grids the frame loop has filed (positions on the scale M), frame by frame
+   M |-> GridScale(cfg.ng), grids |-> [f \in 1..Len(cfg.bs) |-> [s \in 1..NPoints(cfg.ng) |-> acc.grids[f][s - 1]]],
    slots |-> [s \in 1..NPoints(cfg.ng) |-> BlurSlot(acc.slots[s - 1])]]
 
 (***************************************************************************)
@@ -342,7 +431,9 @@ Init ==
     [] Mode = "window"  -> InitWindow
 
 Next ==
-  \/ (Mode \in {"grid", "blur"} /\ Visit)
+  \/ Visit
+  \/ VisitB
+  \/ NextFrame
   \/ AvgFrame
   \/ Window
 
@@ -351,7 +442,7 @@ Spec == Init /\ [][Next]_vars
 \* ---- emission (direction A): one case per finished behaviour ----
 Emit ==
   Gen =>
-    CASE Mode = "blur"    -> (pc = << >> => PrintT(ToJson(BlurCase)))
+    CASE Mode = "blur"    -> (BlurDone => PrintT(ToJson(BlurCase)))
       [] Mode = "spatial" -> (Len(acc) = cfg.F => PrintT(ToJson(SpatialCase)))
       [] Mode = "window"  -> (WindowDone => PrintT(ToJson(WindowCase)))
       [] OTHER            -> TRUE
